@@ -298,6 +298,41 @@ theorem mapE_ok_map {α β} (f : α → Except Err β) (g : α → β) (l : List
     have hxs := ih (fun y hy => h y (by simp [hy]))
     simp [mapE, hx, hxs]
 
+theorem mapE_pyIntE_error (l : List Str) (e : Err) (h : mapE pyIntE l = .error e) : e = .valueError := by
+  induction l with
+  | nil => simp [mapE] at h
+  | cons t ts ih =>
+    simp only [mapE] at h
+    cases hp : pyIntE t with
+    | error e1 =>
+      rw [hp] at h
+      unfold pyIntE at hp
+      split at hp
+      · cases hp
+      · injection hp with hp; injection h with h; rw [← h, ← hp]
+    | ok i =>
+      rw [hp] at h
+      cases hm : mapE pyIntE ts with
+      | error e2 => rw [hm] at h; injection h with h; subst h; exact ih hm
+      | ok ys => rw [hm] at h; cases h
+
+theorem catchValueError_ok {α} (x : Except Err α) (a : α) : catchValueError x = .ok a ↔ x = .ok a := by
+  cases x with
+  | ok b => simp [catchValueError]
+  | error e => cases e <;> simp [catchValueError]
+
+/-- what is caught was a ValueError, what comes out is the RuntimeError -/
+theorem catchValueError_mapE (l : List Str) (e : Err)
+    (h : catchValueError (mapE pyIntE l) = .error e) : e = .runtimeError := by
+  cases hm : mapE pyIntE l with
+  | ok ys => rw [hm] at h; simp [catchValueError] at h
+  | error e1 =>
+    have := mapE_pyIntE_error l e1 hm
+    subst this
+    rw [hm] at h
+    simp [catchValueError] at h
+    exact h.symm
+
 /-! ### `sortByVar` -/
 
 theorem insertByVar_perm (x : Int) (l : List Int) : (insertByVar x l).Perm (x :: l) := by
